@@ -1,0 +1,225 @@
+//! Verification hooks (cargo feature `verif`). Nothing in here is compiled
+//! unless the feature is enabled. All state is thread local so that each
+//! request of the verification worker (one thread per request) is isolated.
+use std::cell::{Cell, RefCell};
+
+/// When should the allocator trigger a collection
+#[derive(Clone, Debug, PartialEq)]
+pub enum GcSchedule {
+  /// Leave the allocators own byte threshold in charge
+  Natural,
+
+  /// Never collect
+  Never,
+
+  /// Collect at every allocation
+  EveryAlloc,
+
+  /// Collect at every k-th allocation
+  EveryKth(u64),
+
+  /// Collect with probability permille / 1000 decided by a
+  /// deterministic generator expanded from seed
+  Seeded { seed: u64, permille: u32 },
+
+  /// Collect exactly at the listed allocation ordinals (sorted ascending)
+  AtIndices(Vec<u64>),
+
+  /// Collect whenever more than n bytes were allocated since the last collection
+  Bytes(usize),
+}
+
+thread_local! {
+  static SCHEDULE: RefCell<GcSchedule> = const { RefCell::new(GcSchedule::Natural) };
+  static FORCE_FULL: Cell<bool> = const { Cell::new(false) };
+  static ALLOC_ORDINAL: Cell<u64> = const { Cell::new(0) };
+  static RNG: Cell<u64> = const { Cell::new(0) };
+  static CURSOR: Cell<usize> = const { Cell::new(0) };
+  static LAST_BYTES: Cell<usize> = const { Cell::new(0) };
+  static COLLECTIONS: Cell<u64> = const { Cell::new(0) };
+  static FREED: Cell<u64> = const { Cell::new(0) };
+  static FREEING_COLLECTIONS: Cell<u64> = const { Cell::new(0) };
+  static LAST_FREEING_ORDINAL: Cell<u64> = const { Cell::new(0) };
+  static COLLECT_ORDINALS: RefCell<Vec<u64>> = const { RefCell::new(Vec::new()) };
+  static DISABLED: Cell<bool> = const { Cell::new(false) };
+}
+
+/// Install a schedule and reset all counters
+pub fn set_gc_schedule(schedule: GcSchedule, force_full: bool) {
+  if let GcSchedule::Seeded { seed, .. } = &schedule {
+    RNG.with(|r| r.set(seed.wrapping_mul(0x9E37_79B9_7F4A_7C15) | 1));
+  }
+  SCHEDULE.with(|s| *s.borrow_mut() = schedule);
+  FORCE_FULL.with(|f| f.set(force_full));
+  ALLOC_ORDINAL.with(|c| c.set(0));
+  CURSOR.with(|c| c.set(0));
+  LAST_BYTES.with(|c| c.set(0));
+  COLLECTIONS.with(|c| c.set(0));
+  FREED.with(|c| c.set(0));
+  FREEING_COLLECTIONS.with(|c| c.set(0));
+  LAST_FREEING_ORDINAL.with(|c| c.set(0));
+  COLLECT_ORDINALS.with(|c| c.borrow_mut().clear());
+  DISABLED.with(|c| c.set(false));
+}
+
+/// Temporarily stop the schedule from firing (used while the harness itself
+/// inspects the heap)
+pub fn set_disabled(disabled: bool) {
+  DISABLED.with(|c| c.set(disabled));
+}
+
+/// Change whether every collection sweeps both generations without touching the counters
+pub fn set_force_full(force_full: bool) {
+  FORCE_FULL.with(|f| f.set(force_full));
+}
+
+/// Should every collection sweep both generations
+pub fn force_full() -> bool {
+  FORCE_FULL.with(|f| f.get())
+}
+
+/// Called by the allocator once per allocation, before its own threshold
+/// test. Returns whether a collection has to be run now.
+pub fn on_alloc(bytes_allocated: usize, next_gc: &mut usize) -> bool {
+  let ordinal = ALLOC_ORDINAL.with(|c| {
+    let v = c.get() + 1;
+    c.set(v);
+    v
+  });
+
+  if DISABLED.with(|c| c.get()) {
+    return false;
+  }
+
+  SCHEDULE.with(|s| {
+    let schedule = s.borrow();
+    match &*schedule {
+      GcSchedule::Natural => false,
+      GcSchedule::Never => {
+        *next_gc = usize::MAX;
+        false
+      },
+      GcSchedule::EveryAlloc => {
+        *next_gc = usize::MAX;
+        true
+      },
+      GcSchedule::EveryKth(k) => {
+        *next_gc = usize::MAX;
+        *k != 0 && ordinal % *k == 0
+      },
+      GcSchedule::Seeded { permille, .. } => {
+        *next_gc = usize::MAX;
+        let x = RNG.with(|r| {
+          let mut x = r.get();
+          x ^= x << 13;
+          x ^= x >> 7;
+          x ^= x << 17;
+          r.set(x);
+          x
+        });
+        ((x >> 11) % 1000) < *permille as u64
+      },
+      GcSchedule::AtIndices(indices) => {
+        *next_gc = usize::MAX;
+        CURSOR.with(|c| {
+          let mut cursor = c.get();
+          while cursor < indices.len() && indices[cursor] < ordinal {
+            cursor += 1;
+          }
+          c.set(cursor);
+          cursor < indices.len() && indices[cursor] == ordinal
+        })
+      },
+      GcSchedule::Bytes(n) => {
+        *next_gc = usize::MAX;
+        let last = LAST_BYTES.with(|c| c.get());
+        bytes_allocated > last.saturating_add(*n)
+      },
+    }
+  })
+}
+
+/// Called by the allocator after each collection
+pub fn on_collect(objects_before: usize, objects_after: usize, bytes_after: usize) {
+  COLLECTIONS.with(|c| c.set(c.get() + 1));
+  let freed = objects_before.saturating_sub(objects_after) as u64;
+  FREED.with(|c| c.set(c.get() + freed));
+  LAST_BYTES.with(|c| c.set(bytes_after));
+  let ordinal = ALLOC_ORDINAL.with(|c| c.get());
+  if freed > 0 {
+    FREEING_COLLECTIONS.with(|c| c.set(c.get() + 1));
+    LAST_FREEING_ORDINAL.with(|c| c.set(ordinal));
+  }
+  COLLECT_ORDINALS.with(|c| {
+    let mut c = c.borrow_mut();
+    if c.len() < 4096 {
+      c.push(ordinal);
+    }
+  });
+}
+
+/// Counters of the schedule hook
+#[derive(Clone, Debug, Default)]
+pub struct GcCounters {
+  pub allocations: u64,
+  pub collections: u64,
+  pub freed: u64,
+  pub freeing_collections: u64,
+  pub last_freeing_ordinal: u64,
+  pub collect_ordinals: Vec<u64>,
+}
+
+/// Read the counters
+pub fn gc_counters() -> GcCounters {
+  GcCounters {
+    allocations: ALLOC_ORDINAL.with(|c| c.get()),
+    collections: COLLECTIONS.with(|c| c.get()),
+    freed: FREED.with(|c| c.get()),
+    freeing_collections: FREEING_COLLECTIONS.with(|c| c.get()),
+    last_freeing_ordinal: LAST_FREEING_ORDINAL.with(|c| c.get()),
+    collect_ordinals: COLLECT_ORDINALS.with(|c| c.borrow().clone()),
+  }
+}
+
+/// Number of object kinds (must track `ObjectKind`)
+pub const KIND_COUNT: u8 = 13;
+
+/// Validate the two header bytes of an object before they are interpreted.
+/// The harness allocator fills released blocks with 0xDE so a use of a freed
+/// object shows up here instead of as undefined behaviour.
+#[inline]
+pub fn check_header(ptr: *const u8) {
+  let (mark, kind) = unsafe { (ptr.read(), ptr.add(1).read()) };
+  if kind >= KIND_COUNT || mark > 1 {
+    dead_object(ptr, mark, kind);
+  }
+}
+
+#[cold]
+#[inline(never)]
+fn dead_object(ptr: *const u8, mark: u8, kind: u8) -> ! {
+  panic!("verif: dead object at {ptr:p} (mark byte {mark:#x}, kind byte {kind:#x})");
+}
+
+/// Heap statistics gathered by walking the allocator's handles
+#[derive(Clone, Debug, Default)]
+pub struct HeapStats {
+  /// number of objects per kind (indexed by `ObjectKind as usize`) over both object heaps
+  pub kind_counts: [u64; KIND_COUNT as usize],
+  pub nursery_objects: u64,
+  pub old_objects: u64,
+  pub other_objects: u64,
+  /// sum of `size()` recomputed over all three heaps
+  pub recomputed_bytes: u64,
+  pub bytes_allocated: u64,
+  pub next_gc: u64,
+  pub gc_count: u64,
+  pub intern_len: u64,
+  /// intern entries whose key bytes differ from their value's bytes
+  pub intern_mismatch: u64,
+  /// intern entries whose value is not a live string object in either heap
+  pub intern_dangling: u64,
+  /// live string objects
+  pub strings: u64,
+  pub temp_roots: u64,
+}
